@@ -12,6 +12,8 @@ package uu
 //@ spec sext(a byte, b byte, c byte, r int) byte = cond(r == 0, a>>2, cond(r == 1, (a<<4 | b>>4) & 63, cond(r == 2, (b<<2 | c>>6) & 63, c & 63)))
 // encLen: length of the encoding of n bytes (45-byte lines: length byte, 4 characters per 3 bytes, newline).
 //@ spec encLen(n int) int = 62*(n/45) + cond(n%45 == 0, 0, 2 + 4*((n%45+2)/3))
+// elen: encLen under a name that AppendDecode's local variable encLen does not shadow.
+//@ spec elen(n int) int = 62*(n/45) + cond(n%45 == 0, 0, 2 + 4*((n%45+2)/3))
 // fill: number of plain bytes on encoded line L of an n-byte input.
 //@ spec fill(n int, L int) int = min(45, n - 45*L)
 // xat: byte i of x, zero beyond lim (the padding Perl adds).
@@ -28,15 +30,21 @@ package uu
 // The heart of the round trip: decoding the four characters that encode three
 // bytes gives those three bytes back.
 //@ lemma{C15} groupRoundTrip(a byte, b byte, c byte): (dsext(uuchar(sext(a, b, c, 0)))<<2) + (dsext(uuchar(sext(a, b, c, 1)))>>4) == a && (dsext(uuchar(sext(a, b, c, 1)))<<4) + (dsext(uuchar(sext(a, b, c, 2)))>>2) == b && (dsext(uuchar(sext(a, b, c, 2)))<<6) + dsext(uuchar(sext(a, b, c, 3))) == c
-// Line level: if the characters of a line are the encoding of block k of x,
-// the line's specified data bytes are that block of x.
-//@ lemma{C15} lineRoundTrip(x []byte, line []byte, k int, i int): imp(0 <= k && 45*k < len(x) && 0 <= i && i < fill(len(x), k) && len(line) >= 1 + 4*((fill(len(x), k)+2)/3) && forall(j, 1 <= j && j <= 4*((fill(len(x), k)+2)/3), line[j] == encByte(x, 62*k + j)), dbyte(line, i) == x[45*k + i])
+// Encoded characters are printable, so never a line separator.
+//@ lemma{C15} uucharPrintable(a byte, b byte, c byte, r int): 33 <= uuchar(sext(a, b, c, r)) && uuchar(sext(a, b, c, r)) <= 96
+// Every encoded byte that is neither a length character nor a newline is printable.
+//@ lemma{C15} encBytePrintable(x []byte, p int): imp(0 <= p && p%62 != 0 && p%62 != 1 + 4*((fill(len(x), p/62)+2)/3), 33 <= encByte(x, p) && encByte(x, p) <= 96)
 // ...and the length character round-trips for every line length in use.
 //@ lemma{C15} lengthCharRoundTrip(m int): imp(1 <= m && m <= 45, int(dsext(byte(32 + m))) == m)
 
 //@ lemma{C15} encLenBound(n int): imp(n >= 0, 0 <= encLen(n) && encLen(n) <= 63*(1 + n/45))
 //@ lemma{C15} encLenFullLines(k int): imp(k >= 0, encLen(45*k) == 62*k)
 //@ lemma{C15} encLenMonotone(a int, b int): imp(0 <= a && a <= b, encLen(a) <= encLen(b))
+//@ lemma{C15} encLenStep(n int, k int): imp(0 <= k && 45*k < n, elen(min(45*(k+1), n)) == 62*k + 2 + 4*((fill(n, k)+2)/3) && elen(min(45*k, n)) == 62*k && 1 <= fill(n, k) && fill(n, k) <= 45 && elen(n) >= 62*k + 2 + 4*((fill(n, k)+2)/3) && elen(n) == encLen(n))
+//@ lemma{C15} encLenPast(n int, k int): imp(0 <= k && 0 <= n && 45*k >= n, elen(min(45*k, n)) == elen(n) && elen(n) == encLen(n))
+//@ lemma{C15} encDataChar(x []byte, k int, g int, t int): imp(0 <= k && 45*k < len(x) && 0 <= g && 3*g < fill(len(x), k) && 0 <= t && t <= 3, encByte(x, 62*k + 1 + 4*g + t) == uuchar(sext(xat(x, 45*k + 3*g, 45*k + fill(len(x), k)), xat(x, 45*k + 3*g + 1, 45*k + fill(len(x), k)), xat(x, 45*k + 3*g + 2, 45*k + fill(len(x), k)), t)))
+//@ lemma{C15} bytePos(g int, t int): imp(g >= 0 && 0 <= t && t <= 2, (3*g + t)%3 == t && (3*g + t)/3 == g)
+//@ lemma{C15} groupPos(k int, g int, t int): imp(k >= 0 && 0 <= g && g <= 14 && 0 <= t && t <= 3, (62*k + 1 + 4*g + t)%62 == 1 + 4*g + t && (62*k + 1 + 4*g + t)/62 == k && (1 + 4*g + t - 1)/4 == g && (1 + 4*g + t - 1)%4 == t)
 //@ lemma{C15} linePos(k int, o int): imp(k >= 0 && 0 <= o && o < 62, (62*k + o)%62 == o && (62*k + o)/62 == k)
 
 //@ func MaxEncodedLen(b) (n)
@@ -58,11 +66,32 @@ package uu
 //@   ensures source: forall(i, 0 <= i && i < len(src), src[i] == old(src[i]))
 //@   ensures prefix: imp(err == nil, len(res) >= len(dst) && forall(q, 0 <= q && q < len(dst), res[q] == old(dst[q])))
 //@   ensures failure_returns_no_buffer: imp(err != nil, len(res) == 0)
-//@   on assign dec(v): if len(v) == 3 { assert(32 <= chunk[0] && chunk[0] <= 95 && 32 <= chunk[1] && chunk[1] <= 95 && 32 <= chunk[2] && chunk[2] <= 95 && 32 <= chunk[3] && chunk[3] <= 95, "only_alphabet_characters_are_decoded"); assert(sext(v[0], v[1], v[2], 0) == chunk[0] - 32 && sext(v[0], v[1], v[2], 1) == chunk[1] - 32 && sext(v[0], v[1], v[2], 2) == chunk[2] - 32 && sext(v[0], v[1], v[2], 3) == chunk[3] - 32, "decoded_bytes_reencode_to_the_four_characters"); assert(v[0] == old(dbyte(line, 3*c)) && v[1] == old(dbyte(line, 3*c+1)) && v[2] == old(dbyte(line, 3*c+2)), "group_decodes_to_the_lines_specified_bytes") }
+//@   ensures round_trip: imp(H, err == nil && len(res) == len(dst) + len(x) && forall(q, len(dst) <= q && q < len(dst) + len(x), res[q] == old(x[q - len(dst)])))
+//@   on assign dec(v): if len(v) == 3 { assert(32 <= chunk[0] && chunk[0] <= 95 && 32 <= chunk[1] && chunk[1] <= 95 && 32 <= chunk[2] && chunk[2] <= 95 && 32 <= chunk[3] && chunk[3] <= 95, "only_alphabet_characters_are_decoded"); assert(sext(v[0], v[1], v[2], 0) == chunk[0] - 32 && sext(v[0], v[1], v[2], 1) == chunk[1] - 32 && sext(v[0], v[1], v[2], 2) == chunk[2] - 32 && sext(v[0], v[1], v[2], 3) == chunk[3] - 32, "decoded_bytes_reencode_to_the_four_characters"); assert(chunk[0] - 32 == dsext(old(line[1+4*c])) && chunk[1] - 32 == dsext(old(line[2+4*c])) && chunk[2] - 32 == dsext(old(line[3+4*c])) && chunk[3] - 32 == dsext(old(line[4+4*c])), "group_values_are_the_characters_sextets"); assert(v[0] == old(dbyte(line, 3*c)) && v[1] == old(dbyte(line, 3*c+1)) && v[2] == old(dbyte(line, 3*c+2)), "group_decodes_to_the_lines_specified_bytes"); assert(imp(H && 45*lineN < len(x), old(line[1+4*c]) == old(encByte(x, 62*lineN + 1 + 4*c)) && old(line[2+4*c]) == old(encByte(x, 62*lineN + 2 + 4*c)) && old(line[3+4*c]) == old(encByte(x, 62*lineN + 3 + 4*c)) && old(line[4+4*c]) == old(encByte(x, 62*lineN + 4 + 4*c))), "rt_group_characters_encode_the_blocks_bytes"); assert(imp(H && 45*lineN < len(x), c <= 14 && 1 + 4*c + 3 < 1 + 4*((fill(len(x), lineN)+2)/3) && 3*c < fill(len(x), lineN)), "rt_group_lies_within_the_line"); assert(imp(H && 45*lineN < len(x), old(encByte(x, 62*lineN + 1 + 4*c)) == uuchar(sext(old(xat(x, 45*lineN + 3*c, 45*lineN + fill(len(x), lineN))), old(xat(x, 45*lineN + 3*c + 1, 45*lineN + fill(len(x), lineN))), old(xat(x, 45*lineN + 3*c + 2, 45*lineN + fill(len(x), lineN))), 0))), "rt_char0_is_sextet0"); assert(imp(H && 45*lineN < len(x), old(encByte(x, 62*lineN + 1 + 4*c + 1)) == uuchar(sext(old(xat(x, 45*lineN + 3*c, 45*lineN + fill(len(x), lineN))), old(xat(x, 45*lineN + 3*c + 1, 45*lineN + fill(len(x), lineN))), old(xat(x, 45*lineN + 3*c + 2, 45*lineN + fill(len(x), lineN))), 1))), "rt_char1_is_sextet1"); assert(imp(H && 45*lineN < len(x), old(encByte(x, 62*lineN + 1 + 4*c + 2)) == uuchar(sext(old(xat(x, 45*lineN + 3*c, 45*lineN + fill(len(x), lineN))), old(xat(x, 45*lineN + 3*c + 1, 45*lineN + fill(len(x), lineN))), old(xat(x, 45*lineN + 3*c + 2, 45*lineN + fill(len(x), lineN))), 2))), "rt_char2_is_sextet2"); assert(imp(H && 45*lineN < len(x), old(encByte(x, 62*lineN + 1 + 4*c + 3)) == uuchar(sext(old(xat(x, 45*lineN + 3*c, 45*lineN + fill(len(x), lineN))), old(xat(x, 45*lineN + 3*c + 1, 45*lineN + fill(len(x), lineN))), old(xat(x, 45*lineN + 3*c + 2, 45*lineN + fill(len(x), lineN))), 3))), "rt_char3_is_sextet3"); assert(imp(H && 45*lineN < len(x), v[0] == old(xat(x, 45*lineN + 3*c, 45*lineN + fill(len(x), lineN))) && v[1] == old(xat(x, 45*lineN + 3*c + 1, 45*lineN + fill(len(x), lineN))) && v[2] == old(xat(x, 45*lineN + 3*c + 2, 45*lineN + fill(len(x), lineN)))), "rt_group_decodes_to_the_blocks_bytes"); assert(imp(H && 45*lineN < len(x) && 3*c < nDec, old(dbyte(line, 3*c)) == old(x[45*lineN + 3*c])), "rt_byte0_of_the_group"); assert(imp(H && 45*lineN < len(x) && 3*c + 1 < nDec, old(dbyte(line, 3*c + 1)) == old(x[45*lineN + 3*c + 1])), "rt_byte1_of_the_group"); assert(imp(H && 45*lineN < len(x) && 3*c + 2 < nDec, old(dbyte(line, 3*c + 2)) == old(x[45*lineN + 3*c + 2])), "rt_byte2_of_the_group"); assert(imp(H && 45*lineN < len(x), forall(i, 3*c <= i && i < 3*c + 3 && i < nDec, (i == 3*c || i == 3*c + 1 || i == 3*c + 2) && old(dbyte(line, i)) == old(x[45*lineN+i]), trig(old(dbyte(line, i))))), "rt_group_data_is_the_blocks_bytes") }
+//@   use uucharPrintable
+//@   use encBytePrintable
+//@   ghost x []byte
+//@   ghost H bool = len(src) == elen(len(x)) && forallCell(src, p, c, c == encByte(x, p))
+//@   ghost D0 int = len(dst)
 //@   ghost L0 int = 0
+//@   before "if '\\r' == line[len(line)-1] { line = line[:len(line)-1] }": assert(imp(H, 45*lineN < len(x) && len(line) == 1 + 4*((fill(len(x), lineN)+2)/3) && len(line) >= 5), "rt_only_data_lines_get_here"); assert(imp(H, old(line[len(line)-1]) == old(encByte(x, 62*lineN + len(line) - 1)) && (62*lineN + len(line) - 1)%62 == len(line) - 1 && (62*lineN + len(line) - 1)/62 == lineN), "rt_last_character_of_the_line"); assert(imp(H, line[len(line)-1] != '\r'), "rt_no_carriage_return_in_canonical_text")
+//@   before "if 0b00 != (len(line)-1)&0b11 { return nil, DecodeError{ Line: lineN, Err: ErrInvalidDataLen, } }": assert(imp(H, len(line) == 1 + 4*((fill(len(x), lineN)+2)/3)), "rt_line_length_is_a_length_character_plus_whole_groups")
 //@   before "var nDec int": L0 = len(dst)
-//@   after "loop 1.1": assert(len(dst) == L0 + nDec, "line_appends_exactly_its_declared_number_of_bytes"); assert(forall(i, 0 <= i && i < nDec, dst[L0+i] == old(dbyte(line, i))), "line_appends_the_specified_bytes_in_order"); assert(forall(q, 0 <= q && q < L0, dst[q] == pre("1.1", dst[q])), "line_keeps_everything_decoded_before_it")
+//@   before "encLen := nDec / decChunkLen": assert(imp(H && 45*lineN < len(x), nDec == fill(len(x), lineN)), "rt_line_declares_the_blocks_length"); assert(imp(H && 45*lineN < len(x), forall(j, 1 <= j && j < len(line), old(line[j]) == old(encByte(x, 62*lineN + j)))), "rt_line_characters_are_the_encoding_of_the_block"); assert(imp(H && 45*lineN < len(x), forall(j, 1 <= j && j < len(line), (62*lineN + j)%62 == j && (62*lineN + j)/62 == lineN, trig(old(line[j])))), "rt_line_character_positions"); assert(imp(H && 45*lineN < len(x), forall(j, 1 <= j && j < len(line), 33 <= old(line[j]) && old(line[j]) <= 96)), "rt_line_characters_are_printable")
+//@   before "if 0 == len(line) { continue }": assert(imp(H && lineN + 1 < len(ranged("1")), offsetIn(ranged("1")[lineN+1], src) == offsetIn(line, src) + len(line) + 1), "rt_next_piece_follows_the_newline"); assert(imp(H && 45*lineN >= len(x), len(line) == 0), "rt_no_data_left_means_an_empty_piece"); assert(imp(H && 45*lineN < len(x), len(line) >= 1 + 4*((fill(len(x), lineN)+2)/3)), "rt_data_line_not_shorter_than_its_encoding"); assert(imp(H && 45*lineN < len(x), old(src[62*lineN + 1 + 4*((fill(len(x), lineN)+2)/3)]) == '\n'), "rt_newline_cell_of_the_data_line"); assert(imp(H && 45*lineN < len(x), len(line) <= 1 + 4*((fill(len(x), lineN)+2)/3)), "rt_data_line_not_longer_than_its_encoding")
+//@   before "loop 1.1.2": assert(len(chunk) == 4 && forall(u, 0 <= u && u < 4, chunk[u] == cond(old(line[1+4*c+u]) == 96, 32, old(line[1+4*c+u]))), "group_is_the_lines_characters_with_backticks_as_spaces"); assert(imp(H && 45*lineN < len(x), forall(u, 0 <= u && u < 4, 32 <= chunk[u] && chunk[u] <= 95)), "rt_group_characters_are_valid")
+//@   after "loop 1.1": assert(len(dst) == L0 + nDec, "line_appends_exactly_its_declared_number_of_bytes"); assert(forall(i, 0 <= i && i < nDec, dst[L0+i] == old(dbyte(line, i)), trig(old(dbyte(line, i)))), "line_appends_the_specified_bytes_in_order"); assert(forall(q, L0 <= q && q < L0 + nDec, dst[q] == oldmem(dbyte(line, q - L0))), "line_appends_the_specified_bytes_by_position"); assert(forall(q, 0 <= q && q < L0, dst[q] == pre("1.1", dst[q])), "line_keeps_everything_decoded_before_it"); assert(imp(H && 45*lineN < len(x), forall(i, 0 <= i && i < nDec, old(dbyte(line, i)) == old(x[45*lineN+i]), trig(old(dbyte(line, i))))), "rt_line_data_is_the_block"); assert(imp(H && 45*lineN < len(x), forall(q, L0 <= q && q < L0 + nDec, dst[q] == oldmem(x[45*lineN + q - L0]))), "rt_line_appends_the_block_of_x")
 //@   loop 1 counter lineN
+//@     invariant rt_pos: imp(H && lineN < len(ranged("1")), offsetIn(ranged("1")[lineN], src) == elen(min(45*lineN, len(x))))
+//@     invariant rt_more: imp(H && 45*lineN < len(x), lineN < len(ranged("1")))
+//@     invariant rt_len: imp(H, len(dst) == D0 + min(45*lineN, len(x)))
+//@     invariant rt_data: imp(H, forall(q, D0 <= q && q < D0 + min(45*lineN, len(x)), dst[q] == oldmem(x[q - D0])))
+//@     apply encLenStep(len(x), lineN)
+//@     apply encLenPast(len(x), lineN)
+//@     apply linePos(lineN, 1 + 4*((fill(len(x), lineN)+2)/3))
+//@     apply linePos(lineN, len(ranged("1")[lineN]))
+//@     apply linePos(lineN, 0)
+//@     apply lengthCharRoundTrip(fill(len(x), lineN))
 //@     invariant apart: disjointSpare(dst, src)
 //@     invariant grows: len(dst) >= len(old(dst))
 //@     invariant source_cells: unchanged(src)
@@ -80,6 +109,15 @@ package uu
 //@     invariant length: len(dst) == L0 + min(3*c, nDec) && nDecRem == nDec - min(3*c, nDec)
 //@     invariant decoded: forall(i, 0 <= i && i < min(3*c, nDec), dst[L0+i] == old(dbyte(line, i)))
 //@     invariant kept: forall(q, 0 <= q && q < L0, dst[q] == pre("1.1", dst[q]))
+//@     invariant rt_decoded: imp(H && 45*lineN < len(x), forall(i, 0 <= i && i < min(3*c, nDec), old(dbyte(line, i)) == old(x[45*lineN+i]), trig(old(dbyte(line, i)))))
+//@     apply bytePos(c, 0)
+//@     apply bytePos(c, 1)
+//@     apply bytePos(c, 2)
+//@     apply oldmem encDataChar(x, lineN, c, 0)
+//@     apply oldmem encDataChar(x, lineN, c, 1)
+//@     apply oldmem encDataChar(x, lineN, c, 2)
+//@     apply oldmem encDataChar(x, lineN, c, 3)
+//@     apply groupRoundTrip(old(xat(x, 45*lineN + 3*c, 45*lineN + fill(len(x), lineN))), old(xat(x, 45*lineN + 3*c + 1, 45*lineN + fill(len(x), lineN))), old(xat(x, 45*lineN + 3*c + 2, 45*lineN + fill(len(x), lineN))))
 //@   loop 1.1.1 counter z
 //@     invariant own_copy: !sameArray(chunk, src) && !sameArray(chunk, dst) && fresh(chunk)
 //@     invariant source_cells: unchanged(src)
